@@ -93,8 +93,26 @@ impl Dirs {
 
 pub type CheckLog = Arc<Mutex<Vec<(u64, u64)>>>;
 
+thread_local! {
+    /// how the CacheBuilder is obtained: 0 CacheBuilder::new(), 1 CacheBuilder::default(), 2 a builder
+    /// that already produced another cache and was reset by take()
+    pub static BUILDER_STYLE: std::cell::Cell<u8> = const { std::cell::Cell::new(0) };
+    /// by-path set/put sources: false = a NamedTempFile (mode 0600), true = a file made with File::create
+    /// (mode 0666 & !umask, as an ordinary application would)
+    pub static PLAIN_FILE_SOURCE: std::cell::Cell<bool> = const { std::cell::Cell::new(false) };
+}
+
 pub fn build(cfg: &StackCfg, dirs: &Dirs, log: Option<CheckLog>) -> Cache {
-    let mut b = CacheBuilder::new();
+    let mut b = match BUILDER_STYLE.with(|s| s.get()) {
+        1 => CacheBuilder::default(),
+        2 => {
+            let mut b = CacheBuilder::new();
+            b.plain_writer(dirs.app_tmp.join("unused-first-cache"), 10).auto_sync(true);
+            let _first = b.take().build();
+            b
+        }
+        _ => CacheBuilder::new(),
+    };
     if let Some((front, cap)) = &cfg.writer {
         match front {
             Front::Plain => b.plain_writer(&dirs.write, *cap),
@@ -107,7 +125,10 @@ pub fn build(cfg: &StackCfg, dirs: &Dirs, log: Option<CheckLog>) -> Cache {
             Front::Sharded(n) => b.sharded_reader(&dirs.reads[i], *n),
         };
     }
-    b.auto_sync(cfg.auto_sync);
+    // auto-sync is on by default: only ever switch it off explicitly
+    if !cfg.auto_sync {
+        b.auto_sync(false);
+    }
     match cfg.checker {
         Checker::None => {}
         Checker::ByteEq => {
@@ -387,6 +408,21 @@ fn exec_inner(cache: &Cache, dirs: &Dirs, op: &Op, opts: &ExecOpts, out: &mut Ou
             }
         }
         Op::Touch(k) => io_res(cache.touch(k.key()), Res::Bool),
+        Op::Set(k, v) | Op::Put(k, v) if PLAIN_FILE_SOURCE.with(|p| p.get()) => {
+            // an ordinary application file: File::create (0666 & !umask), written, closed, handed over by path
+            let path = dirs.app_tmp.join(format!("plain-source-{}", k.name.len()));
+            let made = (|| -> std::io::Result<()> {
+                let mut f = File::create(&path)?;
+                write_val(&mut f, *v)
+            })();
+            if let Err(e) = made {
+                return Res::Err(e.kind(), e.raw_os_error(), format!("app source: {}", e));
+            }
+            out.source = Some(path.clone());
+            let r = if matches!(op, Op::Set(..)) { cache.set(k.key(), &path) } else { cache.put(k.key(), &path) };
+            let _ = std::fs::remove_file(&path);
+            io_res(r, |_| Res::Unit)
+        }
         Op::Set(k, v) | Op::Put(k, v) => {
             let src = match make_source(dirs, *v) {
                 Ok(s) => s,
